@@ -320,6 +320,21 @@ def handle (j : Json) : Except String Json := do
       ("refused", (XsVerif.OpenFlow.openResult defused st).isNone),
       ("scan_verdict", P.verdictJson (XsVerif.Prolog.classify st.scanned)),
       ("parsed", digest ((XsVerif.OpenFlow.openResult defused st).getD []))]
+  | "given" =>
+    -- a file-like object given as source, possibly declaring a URL: the way open() defuses it and whether the scan
+    -- is fed the stream itself (web: the declared URL delivers [0], every other URL [])
+    let v ← parseVariant j
+    let m ← parseMode (← getStr j "mode")
+    let b ← parseBase (← getStr j "base")
+    let data ← fromHex (← getStr j "hex")
+    let g : XsVerif.OpenFlow.Given := { st := { seekable := ← getBool j "seekable", data := data, pos := 0 },
+      io := ← parseIo (← getStr j "io"), hasOpener := ← getBool j "opener",
+      declared := if (← getBool j "declared") then some 1 else none }
+    let web : Nat → List Nat := fun u => if u = 1 then [0] else []
+    let sc := XsVerif.OpenFlow.scanInput v m b web g
+    return Json.mkObj [("plan", planStr (plan v m b g.chan)),
+      ("scans_stream", sc == some g.st.scanned), ("scans", sc.isSome),
+      ("parses_stream", XsVerif.OpenFlow.parseInput v m b g == some g.st.parsed)]
   | "events" =>
     let p ← P.prolog (← j.getObjVal? "ast")
     let refs ← (← getArr j "refs").toList.mapM (fun v => do pure (toBytes (← v.getStr?)))
